@@ -20,6 +20,7 @@ import Cog.Drv.PyDrv
 import Cog.Drv.BuilderSemDrv
 import Cog.Drv.TotalDrv
 import Cog.Drv.SrcDenDrv
+import Cog.Drv.FrontDrv
 open Cog.Drv
 
 def handle (line : String) : String :=
@@ -71,6 +72,9 @@ def handleIO (line : String) : IO String := do
   | "jswf" :: rest => jswfLine (" ".intercalate rest)
   | "jsself" :: rest => jsselfLine (" ".intercalate rest)
   | "srcden" :: rest => srcdenLine (" ".intercalate rest)
+  | "jsfdef" :: rest => jsfdefLine (" ".intercalate rest)
+  | "jsfront" :: rest => jsfrontLine (" ".intercalate rest)
+  | "jsfdoc" :: rest => jsfdocLine (" ".intercalate rest)
   | "godefaults" :: rest => godefaultsLine (" ".intercalate rest)
   | "pydefaults" :: rest => pydefaultsLine (" ".intercalate rest)
   | "pyroundtrip" :: rest => pyroundtripLine (" ".intercalate rest)
